@@ -20,9 +20,11 @@ pub enum Fl {
     ExSeq,
     ExEnum,
     ExCons,
+    /// the votes extension: a fourth ContractType with its own transfer / burn paths (sequential ids)
+    Votes,
 }
 
-pub const ALL: [Fl; 8] = [Fl::Base, Fl::BaseExplicit, Fl::Enum, Fl::EnumExplicit, Fl::Cons, Fl::ExSeq, Fl::ExEnum, Fl::ExCons];
+pub const ALL: [Fl; 9] = [Fl::Base, Fl::BaseExplicit, Fl::Enum, Fl::EnumExplicit, Fl::Cons, Fl::ExSeq, Fl::ExEnum, Fl::ExCons, Fl::Votes];
 
 impl Fl {
     pub fn name(&self) -> &'static str {
@@ -35,6 +37,7 @@ impl Fl {
             Fl::ExSeq => "ex-sequential",
             Fl::ExEnum => "ex-enumerable",
             Fl::ExCons => "ex-consecutive",
+            Fl::Votes => "votes-seq",
         }
     }
     fn is_cons(&self) -> bool {
@@ -168,6 +171,7 @@ pub fn history(cfg: &Cfg, rep: &mut Report, fl: Fl, h: u64, steps: usize, mode: 
     let s = |x: &str| SString::from_str(e, x);
     let c = match fl {
         Fl::Base | Fl::BaseExplicit => e.register(NftBase, ()),
+        Fl::Votes => e.register(crate::contracts::nft::NftVotes, ()),
         Fl::Enum | Fl::EnumExplicit => e.register(NftEnum, ()),
         Fl::Cons => e.register(NftCons, ()),
         Fl::ExSeq => e.register(examples::nft_sequential::ExampleContract, (s("u/"), s("N"), s("N"), u[OWNER].clone())),
